@@ -56,6 +56,18 @@ CLAIMED.update({
                      "write() text; mutation of the copy must not reach the original; after a restart the history continues."),
 })
 
+CLAIMED.update({
+    "C16": dict(cat="exploration", ref="DESIGN.md 3 (C16)",
+                technique="deterministic simulation of write histories on the simulated file system: 1..4 writes of one object "
+                          "through path / caller stream / StringIO with OSError injected at the n-th raw write in between; deep "
+                          "before/after snapshots (frame condition), byte comparison of successive outputs, independent parse of "
+                          "the output for STRT/STOP/STEP truthfulness",
+                text="Frame condition (only the documented fields may differ), byte-identical repeated writes with no further "
+                     "in-memory change, and STRT/STOP/STEP truthfulness under the stated trigger are checked on seeded objects "
+                     "(scratch / read / read-then-edited incl. in-place index edits, stale suffixes, None/empty header values) x "
+                     "writer option sets; failed writes obey the same frame condition."),
+})
+
 NOT_APPLICABLE = {
     "C04": "read_header_line is a pure function of one already-delivered line (regex cascade): no stream position, "
            "history, fault or interleaving can influence it, so deterministic simulation adds nothing (DESIGN.md 4)",
